@@ -89,7 +89,7 @@ func (g *randGen) leafField(allowColl bool) *ir.Field {
 		casts := []struct {
 			s ir.Scalar
 			t string
-		}{{ir.String, "CastString"}, {ir.Bytes, "CastBytes"}, {ir.Bool, "CastBool"}, {ir.Int32, "CastInt32"}, {ir.Int64, "CastInt64"}, {ir.Float, "CastFloat"},
+		}{{ir.String, "CastString"}, {ir.Bytes, "CastBytes"}, {ir.Bool, "CastBool"}, {ir.Int32, "CastInt32"}, {ir.Int64, "CastInt64"}, {ir.Float, "CastFloat"}, {ir.Int64, "BillingDuration"}, {ir.Int64, "DurationSeconds"},
 			{ir.String, "verif/rt/tfx.XString"}, {ir.Int64, "verif/rt/tfx.XInt64"}}
 		c := casts[g.r.Intn(len(casts))]
 		Sc(c.s)(f)
